@@ -2,19 +2,17 @@
 
 package packetlimiter
 
-import (
-	"sync/atomic"
-	"time"
-)
+import "sync/atomic"
 
 var verifClock atomic.Pointer[func() int64]
 
-// nowNano is the clock of Limiter.Account; the verification harness can replace it.
-func nowNano() int64 {
+// verifNow lets the verification harness replace the clock of Limiter.Account: it returns
+// the injected clock's value if one is installed and the wall-clock reading otherwise.
+func verifNow(wall int64) int64 {
 	if f := verifClock.Load(); f != nil {
 		return (*f)()
 	}
-	return time.Now().UnixNano()
+	return wall
 }
 
 // VerifSetClock installs f as the clock of Limiter.Account (nil restores the wall clock).
